@@ -838,3 +838,5 @@ func enumValues(t *types.Named) []*types.Const {
 	}
 	return uniq
 }
+
+func constInt64(n int64) constant.Value { return constant.MakeInt64(n) }
